@@ -6,7 +6,8 @@
 (*                                                                         *)
 (* A bucket record of S3Gw is extended here with the remaining settings:    *)
 (*   owner, ver, lock, tags, policy            (S3Gw)                       *)
-(*   acl      "A0" (owner only) | "A1" | "A2"   (abstract ACL documents)     *)
+(*   acl      "A0" (owner only) | "A1" | "A2" | "A3" (abstract ACL documents; *)
+(*            A3 is an XML document that grants one grantee two permissions)  *)
 (*   own      "-" | "O0" (BucketOwnerEnforced, the default) | "O1" | "O2"    *)
 (*   lockcfg  "-" | "L0" (enabled, no default retention) | "L1" | "L2"       *)
 (* tags in {"-","T1","T2"}, policy in {"-","P1","P2"}, ver as in S3Gw.       *)
@@ -33,7 +34,7 @@ Settings == {"tags", "policy", "acl", "own", "ver", "lockcfg"}
 Deletable == {"tags", "policy", "own"}
 Docs(s) == CASE s = "tags" -> {"T1", "T2"}
              [] s = "policy" -> {"P1", "P2"}
-             [] s = "acl" -> {"A1", "A2"}
+             [] s = "acl" -> {"A1", "A2", "A3"}
              [] s = "own" -> {"O0", "O1", "O2"}
              [] s = "ver" -> {"Enabled", "Suspended"}
              [] s = "lockcfg" -> {"L1", "L2"}
